@@ -1,1 +1,16 @@
-fn main() { println!("vmon"); }
+//! vmon — multi-call monitor binary for the chain-dependent engines.
+//! usage: vmon <engine> [--seed S] [--tier quick|thorough] [--props C01,C02] [key=value ...]
+mod engines;
+
+fn main() {
+    let args = vbase::Args::parse();
+    // keep ckb's own logging quiet unless asked
+    let code = match args.engine.as_str() {
+        "chain" => engines::chain::run(&args),
+        other => {
+            eprintln!("unknown engine {other}");
+            3
+        }
+    };
+    vnode::node::exit(code)
+}
